@@ -1296,6 +1296,9 @@ class Engine(Interp):
                 ms = s.maps[mid]
                 if ms.owned_extras or (not slots.empty(s.zone, ms.extra_rng)):
                     rest_empty = slots.empty(s.zone, ms.extra_rng)     # (an exhausted cursor proves nothing)
+                    if not rest_empty:
+                        from . import roots as _roots
+                        rest_empty = _roots.no_drop_glue(s)
                     self.oblig('HANDLE-DROP', rest_empty, short(bid),
                                'the owning handle is dropped while it still owns live elements [%s,%s): %s'
                                % (fr, bk, ms.describe()), 'unproven', sample=ms.describe())
